@@ -598,12 +598,13 @@ def run(ctx):
         try:
             val2 = call(pot, c, v=v2)
             for a, b in zip(vals, list(val2) if isinstance(val2, tuple) else [val2]):
-                if math.isfinite(b) and not close(a * lam, b, 1e-13, 1e-300):
+                # (values whose intermediate products are subnormal carry no relative precision: not compared)
+                if math.isfinite(b) and abs(a) > 1e-200 * speed and not close(a * lam, b, 1e-13, 1e-300):
                     ctx.fail(f"{k}:not-linear-in-speed", dict(case_json(c), factor=lam), f"derivative({lam} v) = {b!r} != {lam} * {a!r}")
         except EXC as e:
             ctx.fail(f"{k}:not-linear-in-speed", dict(case_json(c), factor=lam), f"scaled velocity raised {e!r}")
         # --- linearity in the charge product
-        if k in ("ip", "bound", "ewald"):
+        if k in ("ip", "bound", "ewald") and abs(vals[0]) > 1e-200 * speed * max(1.0, abs(c["c1"] * c["c2"])):
             mu = rng.choice([-1.0, 2.0, 0.3])
             try:
                 val2 = call(pot, c, c1=c["c1"] * mu)
@@ -759,4 +760,57 @@ def run(ctx):
             if heavy:
                 budget -= 1
     setting.reset()
+    ctx.notes.append("observation (not a violation inside the property's quantifier): outside the minimum-image cube the "
+                     "merged-image routine with the shipped cut-offs (alpha 3.45, Fourier 6, position 2) deviates from the "
+                     "converged lattice sum by up to ~1e-4 relative (the spherical position cut-off then misses near images), "
+                     "so its periodicity holds to full accuracy only across a box face; the oracle therefore probes "
+                     "periodicity across faces with the case's own parameters and by a whole box with position cut-off 3")
     ctx.extra["bit_exact_replies"] = f"{stats['bitexact']} of {stats['compared']} compared numeric replies are bit-identical"
+
+
+def replay(ctx, rec):
+    """re-evaluate the implementation on a recorded failing input (`case` of a replay file)"""
+    import jellyfysh.setting as setting
+    from jellyfysh.setting import hypercubic_setting
+
+    def dec(x):
+        if isinstance(x, str):
+            try:
+                return float.fromhex(x)
+            except ValueError:
+                return x
+        if isinstance(x, list):
+            return [dec(t) for t in x]
+        return x
+
+    c = {k: dec(v) for k, v in rec.get("case", rec).items()}
+    setting.reset()
+    hypercubic_setting.HypercubicSetting(beta=1.0, dimension=3, system_length=c.get("L", 1.0))
+    setting.set_number_of_root_nodes(2)
+    setting.set_number_of_nodes_per_root_node(2)
+    setting.set_number_of_node_levels(1)
+    k = c["kind"]
+    try:
+        if k == "ip":
+            from jellyfysh.potential.inverse_power_potential import InversePowerPotential
+            r = InversePowerPotential(power=c["power"], prefactor=c["k"]).derivative(c["v"], c["s"], c["c1"], c["c2"])
+        elif k == "lj":
+            from jellyfysh.potential.lennard_jones_potential import LennardJonesPotential
+            r = LennardJonesPotential(prefactor=c["k"], characteristic_length=c["cl"]).derivative(c["v"], c["s"])
+        elif k == "dep":
+            from jellyfysh.potential.displaced_even_power_potential import DisplacedEvenPowerPotential
+            r = DisplacedEvenPowerPotential(equilibrium_separation=c["r0"], power=c["power"], prefactor=c["k"]).derivative(c["v"], c["s"])
+        elif k == "bend":
+            from jellyfysh.potential.bending_potential import BendingPotential
+            r = BendingPotential(equilibrium_angle=c["phi0"], prefactor=c["k"]).derivative(c["v"], c["s1"], c["s2"])
+        elif k == "bound":
+            from jellyfysh.potential.inverse_power_coulomb_bounding_potential import InversePowerCoulombBoundingPotential
+            r = InversePowerCoulombBoundingPotential(prefactor=c["k"]).derivative(c["v"], c["s"], c["c1"], c["c2"])
+        else:
+            from jellyfysh.potential.merged_image_coulomb_potential import MergedImageCoulombPotential
+            a, fc, pc = c["par"]
+            r = MergedImageCoulombPotential(alpha=a, fourier_cutoff=int(fc), position_cutoff=int(pc),
+                                            prefactor=c["k"]).derivative(c["v"], c["s"], c["c1"], c["c2"])
+    except Exception as e:  # noqa
+        r = "exception: " + repr(e)
+    return {"case": rec.get("case", rec), "implementation_returns": r, "recorded": rec.get("what")}
